@@ -378,6 +378,29 @@ def materialise(sim, victim, spec):
         if spec.get("mut"):
             data = _mutate(data, spec["mut"], sim.recorder.sent[victim.name])
         return data
+    if k == "pnseq":
+        # one packet of a window of packet numbers delivered out of order by a key-holding peer:
+        # pn = base + off (the window is reserved on first use), content: ack-eliciting PING and/or
+        # an ACK of everything the victim has sent so far (incl. the packet that carried its ACKs)
+        from aioquic import tls
+        peer = victim.peer.conn
+        epoch = spec.get("epoch", "ONE_RTT")
+        key = "_pn_base_" + epoch
+        if not hasattr(sim, key):
+            setattr(sim, key, peer._packet_number)
+            peer._packet_number += spec.get("window", 8)
+        pn = getattr(sim, key) + spec["off"]
+        payload = b""
+        if "ack" in spec["content"] and conn._packet_number > 0:
+            lo = max(0, conn._packet_number - 1 - spec.get("ack_span", conn._packet_number))
+            payload += F.enc_ack([(lo, conn._packet_number - 1)])
+        if "ping" in spec["content"]:
+            payload += b"\x01"
+        if "pad" in spec["content"] or not payload:
+            payload += b"\x00"
+        if not peer._cryptos:
+            return None
+        return inject.build(sim, victim.peer, payload, epoch=epoch, pn=pn)
     if k == "genuine":
         g = sim.recorder.sent[victim.name]
         if not g:
@@ -470,6 +493,15 @@ def apply_input(sim, victim, spec, res, seen, tap=None):
     mid = victim_fingerprint(victim)
     close_event = c._close_event
     sim.transmit(victim)
+    if spec.get("timer"):
+        # let the victim's near timers (delayed ACK) fire before the next input
+        for _ in range(3):
+            t = sim.check_timer(victim)
+            if t is None or t - sim.now > 0.1 or victim.terminated:
+                break
+            sim.fire_timer(victim)
+        if spec.get("drop_output", True):
+            sim.pending[:] = [d for d in sim.pending if d["src"] is not victim]
     res.applied += 1
     new = _new_raises(sim, seen)
     res.raises += new
@@ -881,6 +913,22 @@ def tp_mutations(r):
     muts.append(("vi-other-chosen", setp(0x11, b"\x6b\x33\x43\xcf" + b"\x6b\x33\x43\xcf\x00\x00\x00\x01")))
     muts.append(("vi-v2-first", setp(0x11, b"\x00\x00\x00\x01" + b"\x6b\x33\x43\xcf\x00\x00\x00\x01")))
     muts.append(("vi-unknown-first", setp(0x11, b"\x00\x00\x00\x01" + b"\x1a\x2a\x3a\x4a\x00\x00\x00\x01")))
+    # every subset of omitted initial_max_* parameters (ids 4..9), each also with one of the kept ones
+    # lowered to 0 / raised to the maximum
+    import itertools
+    fc = [0x04, 0x05, 0x06, 0x07, 0x08, 0x09]
+    for k in range(1, len(fc) + 1):
+        for sub in itertools.combinations(fc, k):
+            def op_omit(ps, sub=sub):
+                return join_params([q for q in ps if q[0] not in sub])
+            muts.append(("omit-" + "".join("%x" % x for x in sub), op_omit))
+    for pid in fc:
+        for other in fc:
+            if other != pid:
+                for v, nm in ((0, "lo"), ((1 << 60), "hi")):
+                    def op_mix(ps, pid=pid, other=other, v=v):
+                        return join_params([q for q in ps if q[0] not in (pid, other)] + [[other, V(v)]])
+                    muts.append((f"omit-{pid:x}-{nm}-{other:x}", op_mix))
     # version_information = chosen_version + available_versions, over a lattice of version lists
     v1, v2, vx = 1, 0x6B3343CF, 0x1A2A3A4A
     names = {v1: "v1", v2: "v2", vx: "vx"}
@@ -912,14 +960,35 @@ def tp_mutations(r):
 VERSION_CONFIGS = [[1], [0x6B3343CF], [1, 0x6B3343CF], [0x6B3343CF, 1]]
 
 
-def run_tp_scenario(role, label, op, seed, *, qlog=False, traffic=True, client_options=None, server_options=None):
+# connection phases every hostile handshake-content family is crossed with
+TP_PHASES = ["fresh", "resumed", "resumed0rtt", "resumed0rtt-rejected", "retry", "vn"]
+
+
+def run_tp_scenario(role, label, op, seed, *, qlog=False, traffic=True, client_options=None, server_options=None,
+                    phase="fresh"):
     """victim `role` talks to a real peer which announces crafted transport parameters; the
-    configurations of both endpoints (supported_versions, original_version, …) are part of the case"""
+    configurations of both endpoints (supported_versions, original_version, …) and the connection
+    phase are part of the case:
+      resumed               client offers a session ticket of an earlier connection
+      resumed0rtt           … and sends early data, which the server accepts
+      resumed0rtt-rejected  … which the server rejects (it does not know the ticket)
+      retry                 the handshake runs after a Retry
+      vn                    the handshake runs after a Version Negotiation restart"""
+    from aioquic.quic.packet import encode_quic_retry, encode_quic_version_negotiation
     install_cert_cache()
     rec = Recorder()
-    sim = S.Sim(seed, quic_logger=qlog, monitors=[rec], client_options=dict(client_options or {}),
-                server_options=dict(server_options or {}))
+    co = dict(client_options or {})
+    so = dict(server_options or {})
+    store = None
+    if phase.startswith("resumed"):
+        ticket, store = _resumption_material()
+        co["session_ticket"] = ticket
+    if phase == "vn" and "supported_versions" not in co:
+        co["supported_versions"] = [0x6B3343CF, 1]
+    sim = S.Sim(seed, quic_logger=qlog, monitors=[rec], client_options=co, server_options=so)
     sim.recorder = rec
+    if store is not None and phase != "resumed0rtt-rejected":
+        sim.server.conn._session_ticket_fetcher = store.get
     victim = sim.client if role == "client" else sim.server
     peer = victim.peer
     orig = peer.conn._serialize_transport_parameters
@@ -939,10 +1008,31 @@ def run_tp_scenario(role, label, op, seed, *, qlog=False, traffic=True, client_o
     seen = set()
     try:
         sim.connect()
+        c = sim.client.conn
+        if phase.startswith("resumed0rtt"):
+            sim.api(sim.client, "send_stream_data", 0, b"early data " * 20, end_stream=False)
+            sim.transmit(sim.client)
+        elif phase == "retry":
+            sim.pending.clear()
+            scid = bytes([0x5C]) * 8
+            pkt = encode_quic_retry(version=c._version, source_cid=scid, destination_cid=c.host_cid,
+                                    original_destination_cid=c._peer_cid.cid, retry_token=bytes(16))
+            # what a server that sent this Retry is constructed with
+            sim.server.conn._retry_source_connection_id = scid
+            sim.api(sim.client, "receive_datagram", pkt, S.SERVER_ADDR, now=sim.now)
+            sim.transmit(sim.client)
+        elif phase == "vn":
+            sim.pending.clear()
+            common = [v for v in c._configuration.supported_versions if v != c._version][:1] or [1]
+            pkt = encode_quic_version_negotiation(source_cid=c._peer_cid.cid, destination_cid=c.host_cid,
+                                                  supported_versions=common)
+            sim.api(sim.client, "receive_datagram", pkt, S.SERVER_ADDR, now=sim.now)
+            sim.transmit(sim.client)
         sim.fair_phase(max_steps=40, done=lambda: (victim.conn._handshake_complete and not sim.pending)
                        or victim.conn._close_event is not None)
         res.raises += _new_raises(sim, seen)
         res.handshake = victim.conn._handshake_complete
+        res.early_data_accepted = bool(getattr(getattr(c, "tls", None), "early_data_accepted", False))
         if traffic and victim.conn._handshake_complete and victim.conn._close_event is None:
             sid = 0 if role == "client" else 1
             sim.api(victim, "send_stream_data", sid, b"v" * 2000, end_stream=True)
